@@ -233,7 +233,8 @@ pub fn run(run: &Run) {
     );
     let tier = run.tier;
     let f0 = fmts::ascii();
-    let terms = u::u_term(&f0, tier);
+    let mut terms = u::u_term(&f0, tier);
+    terms.extend(u::huge_terms(4097).into_iter().filter(|r| r.size() > 1000 && !(r.tag == Tag::Product && r.kids.len() == 600))); // widths the lexical side cannot afford
     let distinct: std::collections::HashSet<&R> = terms.iter().filter(|r| !r.tag.is_atom()).collect();
     run.add_distinct(distinct.len() as u64);
     drop(distinct);
